@@ -3,7 +3,7 @@
    Ints are Z constrained by in64; float results are opaque (no floating-point reasoning here). *)
 (* Floats is deliberately not imported here: the primitive float operations then print fully qualified
    (PrimFloat.add ...) in Print Assumptions, which lists kernel primitives under "Axioms:". *)
-From Miller Require Import Base.Bytes C06.Model C07.Model C07.Proofs C07.ProofsBits C07.ProofsMod C07.ProofsWit C07.ProofsMixed.
+From Miller Require Import Base.Bytes C06.Model C07.Model C07.Proofs C07.ProofsBits C07.ProofsInt C07.ProofsPow C07.ProofsMod C07.ProofsPanic C07.ProofsWit C07.ProofsMixed C07.ProofsConv.
 Open Scope Z_scope.
 
 (* ---- + and - : exact when the result fits ---- *)
@@ -120,11 +120,48 @@ Theorem C07_divmod_identity :
 Proof. exact divmod_identity. Qed.
 Print Assumptions C07_divmod_identity.
 
-(* ---- ** : int**int goes through math.Pow on doubles; exactness is false of the faithful model ---- *)
-Theorem C07_pow_exact_when_fits_refuted :
-  exists n, eval_bin OPow (NInt 3) (NInt 39) = RInt n /\ n <> 3 ^ 39 /\ in64 (3 ^ 39) = true.
-Proof. exact pow_inexact_witness. Qed.
-Print Assumptions C07_pow_exact_when_fits_refuted.
+(* ---- ** : int ** int is the exact integer when it fits and a float otherwise (/repo fix: int_power, exact integer
+   power with overflow detection; formerly through float64 math.Pow: C07_pow_exact_when_fits_refuted at 3**39).
+   pow_float a b is the float math.Pow(float64 a, float64 b) of the model's port of go1.25 pow.go ---- *)
+Theorem C07_pow_exact_when_fits :
+  forall a b, in64 a = true -> 0 <= b -> in64 (a ^ b) = true -> eval_bin OPow (NInt a) (NInt b) = RInt (a ^ b).
+Proof. exact pow_exact. Qed.
+Print Assumptions C07_pow_exact_when_fits.
+
+Theorem C07_pow_overflows_to_float :
+  forall a b, in64 a = true -> 0 <= b -> in64 (a ^ b) = false ->
+  eval_bin OPow (NInt a) (NInt b) = pow_float a b /\ forall n, pow_float a b <> RInt n.
+Proof. exact (fun a b Ha Hb Hf => conj (pow_overflow_float a b Ha Hb Hf) (pow_float_not_int a b)). Qed.
+Print Assumptions C07_pow_overflows_to_float.
+
+Theorem C07_pow_never_wraps :
+  forall a b n, in64 a = true -> 0 <= b -> eval_bin OPow (NInt a) (NInt b) = RInt n -> n = a ^ b.
+Proof. exact pow_int_is_exact. Qed.
+Print Assumptions C07_pow_never_wraps.
+
+(* a negative exponent gives a float (2 ** -1 = 0.5; 2 ** -1075 is the float 0, formerly int 0), except for the
+   bases 1 and -1 whose reciprocal powers are ints *)
+Theorem C07_pow_negative_exponent :
+  forall a b, b < 0 ->
+  (a <> 1 -> a <> -1 -> eval_bin OPow (NInt a) (NInt b) = pow_float a b /\ forall n, pow_float a b <> RInt n)
+  /\ eval_bin OPow (NInt 1) (NInt b) = RInt 1 /\ eval_bin OPow (NInt (-1)) (NInt b) = RInt (if Z.odd b then -1 else 1).
+Proof.
+  exact (fun a b Hb => conj (fun H1 Hm1 => conj (pow_negative_exponent_float a b Hb H1 Hm1) (pow_float_not_int a b))
+                            (pow_negative_exponent_unit_base b Hb)).
+Qed.
+Print Assumptions C07_pow_negative_exponent.
+
+Theorem C07_pow_former_defect_witnesses :
+  eval_bin OPow (NInt 3) (NInt 39) = RInt 4052555153018976267 /\ 3 ^ 39 = 4052555153018976267
+  /\ eval_bin OPow (NInt 7) (NInt 22) = RInt (7 ^ 22)
+  /\ eval_bin OPow (NInt (-1)) (NInt 9007199254740993) = RInt (-1)
+  /\ eval_bin OPow (NInt 9223372036854775807) (NInt 1) = RInt 9223372036854775807
+  /\ eval_bin OPow (NInt (-2)) (NInt 63) = RInt min_int64
+  /\ (exists f, eval_bin OPow (NInt 2) (NInt 63) = RFloat f /\ bits_of_f f = float_of_int two63)
+  /\ (exists f, eval_bin OPow (NInt 2) (NInt (-1075)) = RFloat f /\ bits_of_f f = 0)
+  /\ (exists f, eval_bin OPow (NInt 2) (NInt (-1)) = RFloat f /\ bits_of_f f = 4602678819172646912).
+Proof. exact pow_former_witnesses. Qed.
+Print Assumptions C07_pow_former_defect_witnesses.
 
 (* ---- dot operators: 64-bit two's complement ---- *)
 Theorem C07_dot_operators_wrap :
@@ -199,72 +236,92 @@ Theorem C07_unsigned_right_shift :
 Proof. exact ursh_spec. Qed.
 Print Assumptions C07_unsigned_right_shift.
 
-(* ---- int-ness: min/max of ints are the exact int; abs/ceiling/floor/round/sgn/roundm of ints are ints.
-   _partial: the VALUE of abs..roundm goes through float64 and is tied by the correspondence only ---- *)
+(* ---- int-ness: min/max of ints are the exact int; abs/ceiling/floor/round/sgn/roundm of ints are the exact ints ---- *)
 Theorem C07_min_max_of_ints_exact :
   forall a b, eval_bin OMin (NInt a) (NInt b) = RInt (Z.min a b) /\ eval_bin OMax (NInt a) (NInt b) = RInt (Z.max a b).
 Proof. exact (fun a b => conj (min_ints a b) (max_ints a b)). Qed.
 Print Assumptions C07_min_max_of_ints_exact.
 
-Theorem C07_unary_math_preserves_int_partial :
-  forall u a, exists n, eval_un (UMath u) (NInt a) = RInt n /\ in64 n = true.
+(* abs/ceiling/floor/round/sgn of an int: the exact integer (/repo fix: integer kernels, no float64 round trip;
+   formerly C07_int_preserving_value_refuted at floor(2^53+1), ceiling(2^63-1)) *)
+Theorem C07_unary_math_of_int_exact :
+  forall a, in64 a = true ->
+  (a <> min_int64 -> eval_un (UMath FAbs) (NInt a) = RInt (Z.abs a))
+  /\ eval_un (UMath FCeil) (NInt a) = RInt a /\ eval_un (UMath FFloor) (NInt a) = RInt a /\ eval_un (UMath FRound) (NInt a) = RInt a
+  /\ eval_un (UMath FSgn) (NInt a) = RInt (Z.sgn a).
+Proof.
+  exact (fun a Ha => conj (abs_int_exact a Ha) (conj (proj1 (ceil_floor_round_int_identity a)) (conj (proj1 (proj2 (ceil_floor_round_int_identity a)))
+                     (conj (proj2 (proj2 (ceil_floor_round_int_identity a))) (sgn_int_exact a))))).
+Qed.
+Print Assumptions C07_unary_math_of_int_exact.
+
+(* the one int whose absolute value does not fit: abs(-2^63) overflows to the float 2^63, like the arithmetic operators *)
+Theorem C07_abs_min_int_overflows_to_float :
+  eval_un (UMath FAbs) (NInt min_int64) = RFloat (PrimFloat.opp (i2f min_int64))
+  /\ in64 (Z.abs min_int64) = false /\ bits_of_f (PrimFloat.opp (i2f min_int64)) = float_of_int (Z.abs min_int64).
+Proof. exact abs_min_int_is_float. Qed.
+Print Assumptions C07_abs_min_int_overflows_to_float.
+
+Theorem C07_unary_math_preserves_int :
+  forall u a, in64 a = true -> (u, a) <> (FAbs, min_int64) -> exists n, eval_un (UMath u) (NInt a) = RInt n /\ in64 n = true.
 Proof. exact math_unary_int_stays_int. Qed.
-Print Assumptions C07_unary_math_preserves_int_partial.
+Print Assumptions C07_unary_math_preserves_int.
 
-Theorem C07_roundm_preserves_int_partial :
-  forall a b, exists n, eval_bin ORoundm (NInt a) (NInt b) = RInt n /\ in64 n = true.
-Proof. exact roundm_int_stays_int. Qed.
-Print Assumptions C07_roundm_preserves_int_partial.
+(* roundm of ints: the multiple of m nearest x, ties away from zero (roundm_spec; characterised by the next theorem),
+   an int whenever it fits, the float round(x/m)*m otherwise; m = 0 gives the float round(x/0)*0 = NaN
+   (/repo fix: exact integer arithmetic; formerly roundm(7,0) = -2^63 and low bits lost beyond 2^53) *)
+Theorem C07_roundm_exact :
+  forall x m, in64 x = true -> in64 m = true -> m <> 0 ->
+  (in64 (roundm_spec x m) = true -> eval_bin ORoundm (NInt x) (NInt m) = RInt (roundm_spec x m))
+  /\ (in64 (roundm_spec x m) = false -> eval_bin ORoundm (NInt x) (NInt m) = RFloat (mlr_roundm (i2f x) (i2f m))).
+Proof. exact (fun x m Hx Hm Hm0 => conj (roundm_exact x m Hx Hm Hm0) (roundm_overflow_float x m Hx Hm Hm0)). Qed.
+Print Assumptions C07_roundm_exact.
 
-Theorem C07_int_preserving_value_refuted :
-  eval_un (UMath FFloor) (NInt 9007199254740993) = RInt 9007199254740992
-  /\ eval_un (UMath FCeil) (NInt 9223372036854775807) = RInt min_int64
-  /\ eval_un (UMath FAbs) (NInt min_int64) = RInt min_int64
-  /\ eval_bin ORoundm (NInt 7) (NInt 0) = RInt min_int64.
-Proof. exact int_preserving_value_witness. Qed.
-Print Assumptions C07_int_preserving_value_refuted.
+Theorem C07_roundm_spec_is_nearest_multiple :
+  forall x m, m <> 0 ->
+  (exists k, roundm_spec x m = k * m)
+  /\ 2 * Z.abs (x - roundm_spec x m) <= Z.abs m
+  /\ (forall k, Z.abs (x - roundm_spec x m) <= Z.abs (x - k * m))
+  /\ (2 * Z.abs (x - roundm_spec x m) = Z.abs m -> Z.abs x < Z.abs (roundm_spec x m)).
+Proof. exact roundm_spec_nearest. Qed.
+Print Assumptions C07_roundm_spec_is_nearest_multiple.
 
-(* ---- madd/msub/mmul/mexp = exact modular arithmetic for m > 0 (m = 0: error value, theorem C07_zero_modulus_is_error).
-   _partial: when the exact sum/difference/product fits in 64 bits (the code reduces AFTER wrapping) ---- *)
-Theorem C07_madd_exact_partial :
-  forall a b m, in64 m = true -> 0 < m -> in64 (a + b) = true ->
-  eval_tern TMadd (NInt a) (NInt b) (NInt m) = RInt ((a + b) mod m).
+Theorem C07_roundm_zero_modulus_is_float :
+  forall x, eval_bin ORoundm (NInt x) (NInt 0) = RFloat (mlr_roundm (i2f x) (i2f 0)).
+Proof. exact roundm_zero_modulus_float. Qed.
+Print Assumptions C07_roundm_zero_modulus_is_float.
+
+(* ---- madd/msub/mmul/mexp = exact modular arithmetic for m > 0, for ALL int64 operands (/repo fix: the exact math/big
+   sum, difference, product is reduced; formerly the 64-bit wrapped value: C07_mod_ops_exact_refuted).
+   m = 0: error value, theorem C07_zero_modulus_is_error; m < 0: mlrmod of the exact value, not specified by the property ---- *)
+Theorem C07_madd_exact :
+  forall a b m, in64 m = true -> 0 < m -> eval_tern TMadd (NInt a) (NInt b) (NInt m) = RInt ((a + b) mod m).
 Proof. exact madd_exact. Qed.
-Print Assumptions C07_madd_exact_partial.
+Print Assumptions C07_madd_exact.
 
-Theorem C07_msub_exact_partial :
-  forall a b m, in64 m = true -> 0 < m -> in64 (a - b) = true ->
-  eval_tern TMsub (NInt a) (NInt b) (NInt m) = RInt ((a - b) mod m).
+Theorem C07_msub_exact :
+  forall a b m, in64 m = true -> 0 < m -> eval_tern TMsub (NInt a) (NInt b) (NInt m) = RInt ((a - b) mod m).
 Proof. exact msub_exact. Qed.
-Print Assumptions C07_msub_exact_partial.
+Print Assumptions C07_msub_exact.
 
-Theorem C07_mmul_exact_partial :
-  forall a b m, in64 m = true -> 0 < m -> in64 (a * b) = true ->
-  eval_tern TMmul (NInt a) (NInt b) (NInt m) = RInt ((a * b) mod m).
+Theorem C07_mmul_exact :
+  forall a b m, in64 m = true -> 0 < m -> eval_tern TMmul (NInt a) (NInt b) (NInt m) = RInt ((a * b) mod m).
 Proof. exact mmul_exact. Qed.
-Print Assumptions C07_mmul_exact_partial.
+Print Assumptions C07_mmul_exact.
 
-Theorem C07_mod_ops_reduce_after_wrapping :
-  forall a b m, in64 m = true -> 0 < m ->
-  eval_tern TMadd (NInt a) (NInt b) (NInt m) = RInt (wrap64 (a + b) mod m) /\
-  eval_tern TMsub (NInt a) (NInt b) (NInt m) = RInt (wrap64 (a - b) mod m) /\
-  eval_tern TMmul (NInt a) (NInt b) (NInt m) = RInt (wrap64 (a * b) mod m).
-Proof. exact mop_general. Qed.
-Print Assumptions C07_mod_ops_reduce_after_wrapping.
-
-Theorem C07_mod_ops_exact_refuted :
-  eval_tern TMadd (NInt (2 ^ 62)) (NInt (2 ^ 62)) (NInt 3) = RInt 1 /\ (2 ^ 62 + 2 ^ 62) mod 3 = 2 /\
-  eval_tern TMmul (NInt (2 ^ 32)) (NInt (2 ^ 32)) (NInt 7) = RInt 0 /\ (2 ^ 32 * 2 ^ 32) mod 7 = 2.
-Proof. exact mop_wrap_witness. Qed.
-Print Assumptions C07_mod_ops_exact_refuted.
-
-(* mexp by the repeated-squaring invariant c * apower^u = a^e (mod m), every exponent e >= 0 (/repo bbf6f604b removed the
-   unreduced early returns); _partial: |a|, m <= floor(sqrt(2^63-1)) so that no intermediate product wraps *)
-Theorem C07_mexp_exact_partial :
-  forall a e m, in64 m = true -> 0 < m -> m <= 3037000499 -> Z.abs a <= 3037000499 -> 0 <= e -> in64 e = true ->
+(* mexp by the repeated-squaring invariant c * apower^u = a^e (mod m): every base, every exponent e >= 0, every modulus m > 0 *)
+Theorem C07_mexp_exact :
+  forall a e m, in64 m = true -> 0 < m -> 0 <= e -> in64 e = true ->
   eval_tern TMexp (NInt a) (NInt e) (NInt m) = RInt (a ^ e mod m).
 Proof. exact mexp_exact. Qed.
-Print Assumptions C07_mexp_exact_partial.
+Print Assumptions C07_mexp_exact.
+
+Theorem C07_mod_ops_former_defect_witnesses :
+  eval_tern TMadd (NInt (2 ^ 62)) (NInt (2 ^ 62)) (NInt 3) = RInt 2 /\ (2 ^ 62 + 2 ^ 62) mod 3 = 2 /\
+  eval_tern TMmul (NInt (2 ^ 32)) (NInt (2 ^ 32)) (NInt 7) = RInt 2 /\ (2 ^ 32 * 2 ^ 32) mod 7 = 2 /\
+  eval_tern TMexp (NInt (2 ^ 32)) (NInt 3) (NInt 3) = RInt 1 /\ (2 ^ 32) ^ 3 mod 3 = 1.
+Proof. exact mop_former_wrap_witnesses. Qed.
+Print Assumptions C07_mod_ops_former_defect_witnesses.
 
 Theorem C07_mexp_negative_exponent_is_error :
   forall a e m, e < 0 -> eval_tern TMexp (NInt a) (NInt e) (NInt m) = RError.
@@ -283,6 +340,40 @@ Theorem C07_mixed_arithmetic_is_ieee_on_converted_operands :
 Proof. exact mixed_arith_ieee. Qed.
 Print Assumptions C07_mixed_arithmetic_is_ieee_on_converted_operands.
 
+(* ---- the conversion itself: float64(int64 n) of the model (i2f n = f_of_bits (float_of_int n), float_of_int in exact integer
+   arithmetic) is the correctly rounded value for ALL int64 n, stated over Z (no real-number library): below 2^53 nothing is
+   rounded away (the 53-bit significand is |n| 2^(52-e), e = log2 |n|); from 2^53 to 2^63 the significand q = rne_q |n| s at the unit
+   2^s of |n|'s binade is within half a unit of |n|, an exact half only when q is even (round to nearest, ties to even); enc_q q s is
+   the bit pattern of q 2^s (lemma enc_q_decodes in ProofsConv.v: f_of_bits of it is SF2Prim of that significand and exponent) ---- *)
+Theorem C07_int_to_float_correctly_rounded :
+  forall n, in64 n = true -> 2 ^ 53 <= Z.abs n ->
+  let s := Z.log2 (Z.abs n) - 52 in
+  let q := rne_q (Z.abs n) s in
+  float_of_int n = (if n <? 0 then two63 else 0) + enc_q q s
+  /\ 1 <= s <= 11 /\ 2 ^ 52 <= q <= 2 ^ 53
+  /\ 2 * Z.abs (Z.abs n - q * 2 ^ s) <= 2 ^ s
+  /\ (2 * Z.abs (Z.abs n - q * 2 ^ s) = 2 ^ s -> Z.even q = true).
+Proof. exact float_of_int_rne. Qed.
+Print Assumptions C07_int_to_float_correctly_rounded.
+
+Theorem C07_int_to_float_exact_below_2p53 :
+  forall n, n <> 0 -> Z.abs n < 2 ^ 53 ->
+  let e := Z.log2 (Z.abs n) in
+  float_of_int n = (if n <? 0 then two63 else 0) + ((e + 1023) * 2 ^ 52 + (Z.abs n * 2 ^ (52 - e) - 2 ^ 52))
+  /\ 0 <= e <= 52 /\ 2 ^ 52 <= Z.abs n * 2 ^ (52 - e) < 2 ^ 53.
+Proof. exact float_of_int_exact_small. Qed.
+Print Assumptions C07_int_to_float_exact_below_2p53.
+
+(* mixed int/float min and max: the float math.Min / math.Max of the converted operands, whatever the values -- when an int and a
+   float are equal the result is still the float (max(1, 1.0) = 1.0; lemma mixed_min_max_examples).  f_min (f_min f f) is what the
+   variadic fold computes for a float first argument *)
+Theorem C07_mixed_min_max_is_float :
+  forall a f y,
+  (eval_bin OMin (NInt a) (NFloat f) = RFloat (f_min (i2f a) f) /\ eval_bin OMax (NInt a) (NFloat f) = RFloat (f_max (i2f a) f))
+  /\ (eval_bin OMin (NFloat f) y = RFloat (f_min (f_min f f) (to_f y)) /\ eval_bin OMax (NFloat f) y = RFloat (f_max (f_max f f) (to_f y))).
+Proof. exact (fun a f y => conj (mixed_min_max_int_float a f) (mixed_min_max_float_any f y)). Qed.
+Print Assumptions C07_mixed_min_max_is_float.
+
 Theorem C07_mixed_result_is_never_int :
   forall op x y n, has_float x y -> eval_bin op x y <> RInt n.
 Proof. exact mixed_never_int. Qed.
@@ -300,7 +391,7 @@ Print Assumptions C07_modular_functions_reject_floats.
 
 (* ---- never crashes: no operator, no function, no operands (/repo 94ff40520: int ./ 0 is the float a/0;
    /repo 83ceb0713: a zero modulus is an error value) ---- *)
-Theorem C07_binary_never_panics : forall op x y, eval_bin op x y <> RPanic.
+Theorem C07_binary_never_panics : forall op x y, num_ok x -> num_ok y -> eval_bin op x y <> RPanic.
 Proof. exact bin_no_panic. Qed.
 Print Assumptions C07_binary_never_panics.
 
@@ -311,6 +402,18 @@ Print Assumptions C07_unary_never_panics.
 Theorem C07_ternary_never_panics : forall op x y z, eval_tern op x y z <> RPanic.
 Proof. exact tern_no_panic. Qed.
 Print Assumptions C07_ternary_never_panics.
+
+(* the same with the explicit list of operators and functions in scope (and the lists are complete for the model's
+   operator types): the result is always a value -- int, float or error -- never the panic outcome.
+   num_ok: an int operand is an int64 *)
+Theorem C07_never_panics_explicit_list :
+  (forall op x y, In op [OPlus; OMinus; OTimes; ODivide; OIntDivide; OMod; OPow; ODotPlus; ODotMinus; ODotTimes; ODotDivide;
+                         OAnd; OOr; OXor; OLsh; OSrsh; OUrsh; ORoundm; OMin; OMax] -> num_ok x -> num_ok y -> is_value (eval_bin op x y))
+  /\ (forall op x, In op [UNeg; UPos; UNot; UBitcount; UMath FAbs; UMath FCeil; UMath FFloor; UMath FRound; UMath FSgn] -> num_ok x -> is_value (eval_un op x))
+  /\ (forall op x y z, In op [TMadd; TMsub; TMmul; TMexp] -> num_ok x -> num_ok y -> num_ok z -> is_value (eval_tern op x y z))
+  /\ (forall op, In op all_binops) /\ (forall op, In op all_unops) /\ (forall op, In op all_ternops).
+Proof. exact never_panics_all. Qed.
+Print Assumptions C07_never_panics_explicit_list.
 
 Theorem C07_zero_modulus_is_error : forall op a b, eval_tern op (NInt a) (NInt b) (NInt 0) = RError.
 Proof. exact tern_zero_modulus_error. Qed.
@@ -339,3 +442,10 @@ Example C07_nonvacuous :
   /\ eval_tern TMexp (NInt 3) (NInt 200) (NInt 1000007) = RInt (3 ^ 200 mod 1000007)
   /\ (forall q, 7 <> 2 * q).
 Proof. vm_compute. repeat split; try reflexivity; try discriminate; try (intros q; destruct q as [|p|p]; try destruct p; discriminate). Qed.
+
+Example C07_nonvacuous_round2 :
+  in64 (3 ^ 39) = true /\ in64 (2 ^ 63) = false /\ in64 ((-2) ^ 63) = true /\ in64 7 = true /\ (0 <? 7) = true
+  /\ in64 (roundm_spec 7 2) = true /\ roundm_spec 7 2 = 8 /\ roundm_spec (-7) 2 = -8 /\ in64 (roundm_spec 9223372036854775807 2) = false
+  /\ (2 ^ 53 <=? Z.abs 9007199254740993) = true /\ in64 9007199254740993 = true /\ (Z.abs (-5) <? 2 ^ 53) = true
+  /\ eval_tern TMmul (NInt 9223372036854775807) (NInt 9223372036854775807) (NInt 9223372036854775806) = RInt 1.
+Proof. vm_compute. repeat split. Qed.
